@@ -154,6 +154,31 @@ Theorem static_rollback_is_one_batch :
 Proof. exact static_rollback_lemma. Qed.
 Print Assumptions static_rollback_is_one_batch.
 
+(* One commit per block (the predicate of the harness' structural write-log monitor, on the model):
+   in any script the keys a block owns in the unversioned part of the database (flat UTXO/lockup
+   entries, undo records, multiset, set size, processed marker) are written by batch commits only,
+   each either the block batch of a forwarded block or the rollback batch of a rolled-back block,
+   exactly one per such step. A size-triggered early flush of the block batch, or a direct write of
+   such a key, is a top-level write outside this shape. *)
+Theorem owned_keys_only_in_block_and_rollback_batches : forall hib ss,
+  (forall w, In w (script_writes hib ss) -> touches_owned w = true ->
+             is_block_batch w = true \/ is_rollback_batch w = true)
+  /\ length (filter is_block_batch (script_writes hib ss)) = length (filter is_fwd_step ss)
+  /\ length (filter is_rollback_batch (script_writes hib ss)) = length (filter is_back_step ss).
+Proof. exact (fun hib ss => conj (owned_script hib ss) (owned_count hib ss)). Qed.
+Print Assumptions owned_keys_only_in_block_and_rollback_batches.
+
+(* Static tie for it (generated from the AST on every run): none of the functions the block batch is
+   handed to (every function of core/ with an ethdb.Batch parameter, every function of core/vm, the
+   EVM.Batch field) calls Write / Reset / Replay on it, none of them passes another destination to
+   a rawdb writer, BodyDb.Append creates one batch and commits it once, after Apply; and the model's
+   append touches the owned keys in exactly one top-level write, the block batch. *)
+Theorem static_block_batch_committed_once :
+  static_single_commit = true
+  /\ forall hib b, filter touches_owned (store_writes b ++ fwd_writes hib b) = [WBatch (block_batch hib b)].
+Proof. exact static_single_commit_lemma. Qed.
+Print Assumptions static_block_batch_committed_once.
+
 (* ---- non-vacuity ---- *)
 (* a concrete Good database with a UTXO, a valid child spending it, and the witness behaviour *)
 Example good_nonvacuous : Good wd1 [wb1] /\ valid_next [wb1] wb2.
@@ -175,3 +200,8 @@ Proof. exact (conj wd2_good wreorg_ok). Qed.
 Example no_double_apply_nonvacuous :
   Good (exec false (crash 7 (script_writes false (append_script wb2)) wd1) (append_script wb2)) ([wb1] ++ [wb2]).
 Proof. exact (no_double_apply_lemma false wd1 [wb1] wb2 7 wd1_good wb2_valid (le_S _ _ (le_S _ _ (le_n 7)))). Qed.
+
+(* a script with forward and rollback steps that really touch owned keys *)
+Example owned_keys_nonvacuous :
+  length (filter touches_owned (script_writes false (SFwd wb2 :: wreorg))) = 3%nat.
+Proof. vm_compute. reflexivity. Qed.
